@@ -89,6 +89,28 @@ def run(tier, seed):
         core.validate_and_report(chk, BASE, OBS, ACTIONS, batch, trace_cfg(p2), ['Fresh', 'UniqueIds', 'NoGhostDelivery', 'NoDead'],
                                  'c14', p2, 'random %d clients' % nclients, nproc=8)
     chk.sample({'recorded': [a for a, s in batch[0]][:6]})
+    # byte level: what the bus delivered is judged by the reference parser of Message.tla - forwarded messages are
+    # well-formed and equal to what was sent except for the SENDER field; the bus's own messages are well-formed
+    fw = sorted(bd.FORWARDED.items(), key=repr)
+    og = sorted(bd.ORIGINATED.items(), key=repr)[:150]
+    cc = 'CONSTANTS\n MTypes = {1}\n'
+    obs = ['c', 'raw', 'rec', 'ser']
+    for label, pred, items, mk in (
+            ('forwarded bytes', 'TraceForward', fw,
+             lambda v: {'c': {'orig': tuple(v[0]), 'sender': tuple(v[2].encode())}, 'raw': tuple(v[1]), 'rec': {}, 'ser': {}}),
+            ('bus-originated bytes', 'TraceWellFormed', og, lambda v: {'c': {}, 'raw': tuple(v), 'rec': {}, 'ser': {}})):
+        traces = [[({'n': 'Init'}, mk(v))] for k, v in items]
+        rej, stt = core.validate_traces('MC_Message', obs, traces, {}, cfg_consts=cc, initpred=pred, nproc=8, timeout=600)
+        chk.states += stt['states']
+        chk.transitions += stt['transitions']
+        chk.traces += len(traces) - len(rej)
+        chk.notes[label] = len(traces)
+        for ti, _, _ in rej[:3]:
+            k, v = items[ti]
+            chk.violation('%s rejected by Message.tla/%s: %r' % (label, pred, k), dict(
+                kind='code->spec bytes', module='c14', key=repr(k),
+                sent=list(v[0]) if pred == 'TraceForward' else None,
+                delivered=list(v[1]) if pred == 'TraceForward' else list(v)))
     tr = [list(x) for x in rerecord(p2, [('Hello', (1,)), ('Hello', (2,)), ('Send', (1, ('u', 2), 'call', True))])]
     done = False
     for j, (a, st) in enumerate(tr):
@@ -109,7 +131,8 @@ def run(tier, seed):
     chk.assumptions = ['the delivery interleaving of the bus is the order in which it reads the connections: one action per message read',
                        'messages carrying file descriptors are not routed through the built-in bus (outside the quantifier)',
                        'a broadcast is compared copy for copy (one per matching rule held), which is stronger than the set of '
-                       'connections the property speaks of', 'forwarded content is compared field by field with what was sent']
+                       'connections the property speaks of', 'forwarded content is compared field by field with what was sent, and a sample of the delivered bytes (every '
+                       'kind x byte order x flags x forged or not) is parsed by the reference parser of Message.tla']
     return chk.finish(
         rule='TLC explores all histories of connects (incl. a bad first call), disconnects, name changes, unicast messages of all '
              'four types to names and unique names (forged senders, both byte orders, flags), calls to the bus itself, AddMatch / '
